@@ -63,6 +63,9 @@ class _R:
         self.i = 0
 
 
+BARE_RETURN = [False]  # render option: `return` without a value (the function then returns None)
+
+
 def render(b, ind, r, read_target=False):
     out = []
     pad = "    " * ind
@@ -74,7 +77,10 @@ def render(b, ind, r, read_target=False):
         elif k in ("break", "continue"):
             out.append(pad + k)
         elif k == "return":
-            out.append("%sreturn %d" % (pad, 100 + r.m))
+            if BARE_RETURN[0]:
+                out.append("%sreturn" % pad)
+            else:
+                out.append("%sreturn %d" % (pad, 100 + r.m))
             r.m += 1
         elif k == "if":
             out.append("%sif cond(%d):" % (pad, r.c))
@@ -207,6 +213,20 @@ def composed(inner_max=3, placements=("module", "function", "class", "method")):
                     full = build(b)
                     src, r = program(full, pl)
                     yield ("C05:%s:ctx:%s<%s>" % (pl, cname, sk_str(b)), src, r.c, r.i)
+
+
+def bare_returns(size, depth=3):
+    """function-level skeletons containing a return, rendered with BARE returns"""
+    for pl in ("function", "method"):
+        in_loop, in_func = PLACEMENTS[pl]
+        for b in blocks(size, depth, in_loop, in_func):
+            if has_kind(b, ("return",)):
+                BARE_RETURN[0] = True
+                try:
+                    src, r = program(b, pl)
+                finally:
+                    BARE_RETURN[0] = False
+                yield ("C05:%s+barereturn:%s" % (pl, sk_str(b)), src, r.c, r.i)
 
 
 EXTRA = {
